@@ -8,7 +8,6 @@ theorem inv_step_2 {k s l s'} (hi : Inv k s) (hs : Step s l s') (hg : grpOf l = 
   cases hs with
   | tlfFast f hk h ho => mx_auto
   | tlfPark f t d j hk h ho ht => mx_auto
-  | tlfWokenAcq f hk hx h => mx_auto
   | tlfRecheckAcq f req hk h ho => mx_auto
   | tlfRepark f req j hk h ho => mx_auto
   | tlfTimeout f t req dl hk h hd ht => mx_auto
